@@ -105,6 +105,11 @@ class C02(Check):
             k += 1
             yield dict(seed=seed * 7919 + 950 + k, source=src_, mode="centres", weights=True, redshifts=False, dtype="f8",
                        degrees=bool(k % 2), n=300, chunk=64, parallel=bool(k % 2), progress=False, group="equal", border=True)
+        # a slow source: 17 s pass between two chunks (a tape, a network file system, a busy generator); the writer
+        # process must wait for the end-of-input signal, however long the input takes
+        k += 1
+        yield dict(seed=seed * 7919 + 980 + k, source="dataframe", mode="centres", weights=True, redshifts=True, dtype="f8", degrees=True,
+                   n=170, chunk=40, parallel=True, progress=False, group="equal", border=False, slow_pause=17.0)
         # inputs longer than any power-of-two block size inside the pipeline (2^16), in few large chunks
         for src_ in (("dataframe", "hdf5") if q else SOURCES):
             k += 1
@@ -267,7 +272,7 @@ class C02(Check):
                 centres = gen.radec_to_xyz(np.deg2rad(np.array([12.0, 15.0, 18.0])), np.deg2rad(np.array([0.0, 3.0, -3.0])))
                 _ = (c_ra, c_dec)
 
-            def create(target, *, workers, chunksize, progress=False, buffersize=None, delay_seed=None, order_log=None):
+            def create(target, *, workers, chunksize, progress=False, buffersize=None, delay_seed=None, order_log=None, slow=None):
                 """Runs in this process (workers == 1) or in a forked child."""
                 import yaw.catalog.catalog as ycat
 
@@ -319,6 +324,26 @@ class C02(Check):
                     frame = pd.DataFrame(cols)
                     if case_bits(case, "row-labels") % 3 == 0:  # row labels of a larger parent table
                         frame.index = np.arange(len(frame))[::-1] * 2 + 500
+                    if slow:
+                        class SlowFrame:
+                            """Serves row slices like the frame; the slice starting at or after row 2*chunk takes a while."""
+
+                            def __init__(self_, df):
+                                self_._df, self_._paused = df, False
+
+                            def __len__(self_):
+                                return len(self_._df)
+
+                            def __getitem__(self_, key):
+                                if isinstance(key, slice) and (key.start or 0) >= 2 * chunksize and not self_._paused:
+                                    self_._paused = True
+                                    time.sleep(slow)
+                                return self_._df[key]
+
+                            def __getattr__(self_, name):
+                                return getattr(self_._df, name)
+
+                        frame = SlowFrame(frame)
                     cat = Catalog.from_dataframe(target, frame, **kw)
                 elif source == "random":
                     for k in ("ra_name", "dec_name", "weight_name", "redshift_name", "patch_name", "degrees"):
@@ -415,12 +440,16 @@ class C02(Check):
                     for w in ([2, 4] if source == "random" else [int(rng.choice([2, 3])), int(rng.choice([4, 8]))]):
                         variants.append(dict(workers=w, chunksize=chunk if source == "random" else int(rng.choice([chunk] + other_chunks)),
                                              delay_seed=int(rng.integers(1 << 30))))
+                if case.get("slow_pause"):
+                    variants = [dict(workers=2 + case["seed"] % 2, chunksize=chunk, slow=float(case["slow_pause"]))]
                 orders = set()
                 for vi, v in enumerate(variants):
                     target = tmp / f"var{vi}"
                     if v["workers"] > 1:
                         v["order_log"] = str(tmp / f"order{vi}.log")
-                        res = run_forked(lambda v=v, target=target: create(target, **v), workdir=tmp, wall_cap=120)
+                        # (the watchdog tolerates the silence of a deliberately slow source)
+                        res = run_forked(lambda v=v, target=target: create(target, **v), workdir=tmp, wall_cap=180,
+                                         quiet_samples=int(2 * (v.get("slow") or 0) + 12) if v.get("slow") else 6)
                         counters["parallel_runs"] = counters.get("parallel_runs", 0) + 1
                         if res["outcome"] == "quiescent":
                             bad("parallel-creation:hang", dict(variant={k: x for k, x in v.items() if k != "order_log"}, stack=res.get("stack", "")[-600:]))
